@@ -268,6 +268,7 @@ class Env:
 
     def child(self):
         e = Env(self.atoms, self.facts, self.default)
+        e.nan_aware = getattr(self, "nan_aware", False)
         return e
 
     def assume(self, cond, val=True):
@@ -303,6 +304,8 @@ class Env:
                 nb = ib.meet(Iv(ia.lo, INF, strict or ia.lo_open, False))
                 na.nan = nb.nan = False
                 self.atoms[A], self.atoms[B] = na, nb
+            elif getattr(self, "nan_aware", False) and (ia.nan or ib.nan):
+                pass         # `not (A < B)` also holds when an operand is NaN: nothing to learn without the finite-input premise
             else:        # not (A < B): A >= B (NaN excluded by the finite-input premise)
                 strict = a[0] == "<="
                 na = ia.meet(Iv(ib.lo, INF, strict or ib.lo_open, False))
